@@ -1,6 +1,7 @@
 import Pycoin.Proofs.Der
 import Pycoin.Proofs.SecRt
 import Pycoin.Proofs.CurveFacts.secp256k1
+import Pycoin.Proofs.KeyOrder
 import Pycoin.Props.C11
 import Pycoin.Model.PyErr
 import Pycoin.Model.Wif
@@ -391,6 +392,60 @@ theorem C10_wif_parse_range (c : CurveParams) (mul : Int → Except Curve.Err Pt
   · cases h
 
 end wif
+
+/-! ## the shipped curve: every clause without side conditions -/
+section shipped
+open Pycoin.Sec Pycoin.KeyCtor Pycoin.Wif Pycoin.Curve Pycoin.Gen.Curves
+
+/-- `Key(secret_exponent=d)` succeeds for every `d` in `[1, n−1]`, whatever blinding factor the generator drew
+(C02: the blinded fixed-base multiplication computes `d • G`; `n` is prime and `n • G = ∞`, so `d • G ≠ ∞`) -/
+theorem C10_key_ctor_accepts_secp256k1 (bf d : Int) (comp : Bool) (h1 : 1 ≤ d) (h2 : d < k1.n) :
+    ∃ k, keyFromSecret k1 bf d comp = .ok k ∧ k.se = some d ∧ k.compressed = comp ∧
+      containsXY k1 k.pub.1 k.pub.2 = true := by
+  obtain ⟨x, y, hm, hon⟩ := mulG_some secp256k1 G_on_curve_secp256k1 prime_n_secp256k1
+    C10_field_secp256k1.2.2.1 order_G_secp256k1 bf d h1 h2
+  refine ⟨⟨some d, (x, y), comp⟩, ?_, rfl, rfl, hon⟩
+  unfold keyFromSecret keyFromSecretWith
+  have : ¬ (d < 1 ∨ d ≥ k1.n) := by omega
+  rw [if_neg this, hm]
+  simp [hon]
+
+/-- C10.wif_rt, end to end on the shipped curve: for every network of the table, every exponent in `[1, n−1]`,
+both flags, any blinding factor: the key exists, `key.wif()` is a text, and `network.parse.wif` of that text is
+the key -/
+theorem C10_wif_rt_secp256k1 (bf : Int) (net : Addr.Network) (hnet : net ∈ Gen.Networks.all)
+    (hb58 : net.b58DoubleSha = true) (d : Int) (comp : Bool) (h1 : 1 ≤ d) (h2 : d < k1.n) :
+    ∃ k t, keyFromSecret k1 bf d comp = .ok k ∧ k.se = some d ∧ k.compressed = comp ∧
+      Key.wif net k none = .ok (some t) ∧ parseWif k1 bf net t = .ok (some k) := by
+  obtain ⟨k, hk, hse, hc, -⟩ := C10_key_ctor_accepts_secp256k1 bf d comp h1 h2
+  obtain ⟨t, ht1, ht2⟩ := C10_wif_rt_same k1 C10_field_secp256k1.2.2.1 (mulG k1 bf) net hnet hb58 d comp k hk
+  exact ⟨k, t, hk, hse, hc, ht1, ht2⟩
+
+/-- C10.sec_rt on the shipped curve, both forms, no side condition: every reduced curve point encodes, the blob
+decodes (strict and non-strict) to the point, and `Key.from_sec` gives back the point, the compression flag, the
+blob, and therefore the same hash160 and address on every network -/
+theorem C10_sec_rt_secp256k1 (net : Addr.Network) (k : Key) (comp : Bool)
+    (hx0 : 0 ≤ k.pub.1) (hx : k.pub.1 < k1.p) (hy0 : 0 ≤ k.pub.2) (hy : k.pub.2 < k1.p)
+    (hon : containsXY k1 k.pub.1 k.pub.2 = true) :
+    ∃ blob k', k.sec (some comp) = .ok blob ∧
+      secToPublicPair k1 blob true = .ok k.pub ∧ secToPublicPair k1 blob false = .ok k.pub ∧
+      keyFromSec k1 blob = .ok k' ∧ k'.pub = k.pub ∧ k'.compressed = comp ∧ k'.se = none ∧
+      k'.sec none = .ok blob ∧ k'.hash160 none = k.hash160 (some comp) ∧
+      Key.address net k' none = Key.address net k (some comp) := by
+  cases comp with
+  | false => exact C10_sec_rt_uncompressed k1 C10_field_secp256k1.1 net k hx0 hx hy0 hy hon
+  | true =>
+    have hy1 : 0 < k.pub.2 := by
+      rcases Int.lt_or_eq_of_le hy0 with h | h
+      · exact h
+      · exfalso
+        have := no_y_zero_secp256k1 k.pub.1
+        rw [← h] at hon
+        rw [hon] at this
+        cases this
+    exact C10_sec_rt_compressed k1 C10_field_secp256k1.1 C10_field_secp256k1.2.1 net k hx0 hx hy1 hy hon
+
+end shipped
 
 /-! ## DER (`pycoin/satoshi/der.py`) -/
 section der
